@@ -618,6 +618,10 @@ impl Prop for C01 {
                 v.push(json!({"kind": "grid", "n": n, "first": first}));
             }
         }
+        // messages of very many tiny frames (whole message in one buffer / byte at a time)
+        for n in [17usize, 129, 256, 257, 258, 300, 1025, 5000] {
+            v.push(json!({"kind": "shape", "key": 0x3A7 + n as u64, "lens": (0..n).map(|i| i % 3).collect::<Vec<_>>()}));
+        }
         let (batches, per) = tier.pick((40, 10), (250, 20));
         for b in 0..batches {
             v.push(json!({"kind": "rand", "seed": seed, "batch": b, "n": per}));
